@@ -1,0 +1,130 @@
+//! Instrumentation for the verification harness (built only with
+//! `--cfg coupe_verif`): shared-memory accesses of [`ArcSwap`](crate::ArcSwap)
+//! are reported to an optional observer *before* they are performed (so that
+//! a controlled scheduler can decide which worker proceeds) and their results
+//! *after* they are performed.
+//!
+//! Without an installed observer every function here is a no-op around the
+//! plain atomic access.
+
+use std::sync::atomic::AtomicBool;
+use std::sync::atomic::AtomicUsize;
+use std::sync::atomic::Ordering;
+use std::sync::RwLock;
+
+/// What a worker is about to do (`…Cas`, `…Load`, `…Store`, `Task…`,
+/// `PassBegin`) or has just observed (`…Done`, `…Loaded`).
+#[derive(Clone, Copy, Debug, PartialEq, Eq)]
+pub enum Ev {
+    /// A pass starts; `thread_count` as computed by `work_share`.
+    PassBegin { pass: usize, thread_count: usize, items_per_thread: usize },
+    /// The closure handling chunk `chunk_idx` starts / ends.
+    TaskBegin(usize),
+    TaskEnd(usize),
+    /// `locks[v].compare_exchange(false, true)` is about to run / returned.
+    LockCas(usize),
+    LockCasDone(usize, bool),
+    /// `locks[v].load()` is about to run / returned.
+    LockLoad(usize),
+    LockLoaded(usize, bool),
+    /// `locks[v].store(value)` is about to run.
+    LockStore(usize, bool),
+    /// `partition[v].load()` is about to run / returned.
+    PartLoad(usize),
+    PartLoaded(usize, usize),
+    /// `partition[v].store(part)` is about to run.
+    PartStore(usize, usize),
+}
+
+type Observer = Box<dyn Fn(Ev) + Send + Sync>;
+
+static OBSERVER: RwLock<Option<Observer>> = RwLock::new(None);
+static LOCK_BASE: AtomicUsize = AtomicUsize::new(0);
+static PART_BASE: AtomicUsize = AtomicUsize::new(0);
+
+/// Install (or remove, with `None`) the observer.
+pub fn set_observer(observer: Option<Observer>) {
+    *OBSERVER.write().unwrap() = observer;
+}
+
+pub fn event(ev: Ev) {
+    if let Some(observer) = OBSERVER.read().unwrap().as_ref() {
+        observer(ev);
+    }
+}
+
+/// An `AtomicBool` of the lock array whose accesses are reported.
+#[derive(Debug)]
+#[repr(transparent)]
+pub struct HookedBool(AtomicBool);
+
+/// An `AtomicUsize` of the partition array whose accesses are reported.
+#[derive(Debug)]
+#[repr(transparent)]
+pub struct HookedUsize(AtomicUsize);
+
+pub fn hooked_locks(locks: &[AtomicBool]) -> &[HookedBool] {
+    LOCK_BASE.store(locks.as_ptr() as usize, Ordering::SeqCst);
+    // SAFETY: `HookedBool` is `repr(transparent)` over `AtomicBool`.
+    unsafe { std::slice::from_raw_parts(locks.as_ptr().cast(), locks.len()) }
+}
+
+pub fn hooked_parts(parts: &[AtomicUsize]) -> &[HookedUsize] {
+    PART_BASE.store(parts.as_ptr() as usize, Ordering::SeqCst);
+    // SAFETY: `HookedUsize` is `repr(transparent)` over `AtomicUsize`.
+    unsafe { std::slice::from_raw_parts(parts.as_ptr().cast(), parts.len()) }
+}
+
+impl HookedBool {
+    fn index(&self) -> usize {
+        (self as *const Self as usize - LOCK_BASE.load(Ordering::SeqCst))
+            / std::mem::size_of::<Self>()
+    }
+
+    pub fn compare_exchange(
+        &self,
+        current: bool,
+        new: bool,
+        success: Ordering,
+        failure: Ordering,
+    ) -> Result<bool, bool> {
+        let v = self.index();
+        event(Ev::LockCas(v));
+        let res = self.0.compare_exchange(current, new, success, failure);
+        event(Ev::LockCasDone(v, res.is_ok()));
+        res
+    }
+
+    pub fn load(&self, order: Ordering) -> bool {
+        let v = self.index();
+        event(Ev::LockLoad(v));
+        let res = self.0.load(order);
+        event(Ev::LockLoaded(v, res));
+        res
+    }
+
+    pub fn store(&self, value: bool, order: Ordering) {
+        event(Ev::LockStore(self.index(), value));
+        self.0.store(value, order)
+    }
+}
+
+impl HookedUsize {
+    fn index(&self) -> usize {
+        (self as *const Self as usize - PART_BASE.load(Ordering::SeqCst))
+            / std::mem::size_of::<Self>()
+    }
+
+    pub fn load(&self, order: Ordering) -> usize {
+        let v = self.index();
+        event(Ev::PartLoad(v));
+        let res = self.0.load(order);
+        event(Ev::PartLoaded(v, res));
+        res
+    }
+
+    pub fn store(&self, value: usize, order: Ordering) {
+        event(Ev::PartStore(self.index(), value));
+        self.0.store(value, order)
+    }
+}
